@@ -36,6 +36,44 @@ class Result:
         self.steps = 0
         self.wall_s = 0.0
         self.notes = []
+        self.xval = 0              # path witnesses on which the native build agreed with the symbolic result
+        self.xval_classes = {}
+    def want_xval(self, cls, per_class=None):
+        """path-witness cross-validation budget: the first few feasible paths of every outcome class of an instance"""
+        per_class = per_class or int(os.environ.get('VERIF_XVAL', '1'))
+        if per_class <= 0:
+            return False
+        n = self.xval_classes.get(cls, 0)
+        if n >= per_class:
+            return False
+        self.xval_classes[cls] = n + 1
+        return True
+    def xval_result(self, agrees, what, inp):
+        """record the outcome of one cross-validation: the native build was run on a solver-chosen input of this path
+        and its observation compared with the value of the symbolic result under the same model.  A disagreement means
+        the encoding (a library model, the interpreter) is wrong on this path - or the property is broken natively:
+        it is queued like a counterexample, the native replay decides which (VIOLATION vs INCONCLUSIVE)."""
+        if agrees:
+            self.xval += 1
+        else:
+            self.violations.append({'what': 'native build and symbolic result disagree on a path witness: ' + what, 'input': inp, 'xval': True})
+    def xval_path(self, cls, replay_fn, make_rec):
+        """cross-validate one passing path: run the native build on a solver-chosen input of this path and judge it with
+        the concrete oracle (the driver's replay function).  Symbolically the path satisfies the property; if the native
+        run does not, the encoding is wrong or the property is broken - queued as a counterexample (the replay decides)."""
+        if not self.want_xval(cls):
+            return
+        try:
+            rec = make_rec()
+        except (ValueError, UnicodeDecodeError):
+            return
+        if rec is None:
+            return
+        rep, detail = replay_fn({'input': rec})
+        if rep:
+            self.violations.append({'what': 'the native build breaks the property on an input of a path that passes symbolically: ' + str(detail)[:300], 'input': rec, 'xval': True})
+        else:
+            self.xval += 1
     def cls(self, name, nontrivial=False):
         self.classes[name] = self.classes.get(name, 0) + 1
         if nontrivial:
@@ -65,6 +103,7 @@ def merge(results):
         for k, v in r['models'].items():
             tot.models[k] = tot.models.get(k, 0) + v
         tot.notes.extend(r.get('notes', []))
+        tot.xval += r.get('xval', 0)
     return tot
 
 # ---------------------------------------------------------------------------- native replay
@@ -143,6 +182,7 @@ def write_evidence(prop, tier, seed, tot, wall, bounds, explanation, assumptions
         'mir_dump_seconds': round(prog.dump_seconds, 2),
         'source_hash': prog.src_hash,
         'known_findings_confirmed': sorted(tot.known),
+        'path_witnesses_cross_validated_natively': tot.xval,
         'notes': tot.notes[:20],
     }
     if extra:
